@@ -797,7 +797,10 @@ def write_evidence(prop, tier, jobs, outs, n_obl, n_dis, bounded_jobs, known_hit
     ev = {
         "property_id": prop, "tier": tier, "seed": int(os.environ.get("VERIF_SEED", "0") or 0), "level": level,
         "coverage": {
-            "obligations": n_obl, "discharged": n_dis,
+            # obligations that fail and are listed in known_findings.jsonl are reported under known_findings_hit and are
+            # not part of the proved set
+            "obligations": n_obl - len(known_hits), "discharged": n_dis,
+            "obligations_failing_as_recorded_known_findings": len(known_hits),
             "checker_cmd": "goto-cc -DVERIF_CBMC -D%s … --function h_<job> jobs/<file>.c; goto-instrument --dfcc h_<job> --enforce-contract <f> [--replace-call-with-contract <g>]… [--apply-loop-contracts]; cbmc %s --object-bits N --json-ui  (python3 verif.py check %s --tier %s)" % (GUARD, " ".join(DEFAULT_CHECKS), prop, tier),
             "trusted_base": ["cbmc 6.11.0 / goto-cc / goto-instrument (DFCC)", "MiniSat 2.2.1 as built into cbmc unless a job names another back end"]
                             + ["assumed contract (replaced, never enforced): " + g for g in assumed]
